@@ -15,7 +15,8 @@ PROP = {
                    "live never changes, growth only appends segments, capacity = allocated slots. The models are executable and compared on "
                    "every run with the real static functions (exhaustive sweep of all indexes < 2^22, thorough 2^26, x L0 0..16 x both "
                    "sizings, plus an in-order-fill oracle up to 2^26 / 2^32 and boundary points up to 2^64) and with real SegmentedArrays "
-                   "whose element addresses are re-checked after every operation."),
+                   "whose element addresses are re-checked after every operation."
+                   ' GetSegItemIndexes / GetIndex / GetItemCount and the two log helpers of both sizings are additionally TRANSLATED from the header text on every run (tools/translate.py) and proved equal to the machine-level model; the round trip is proved for the generated definitions (C16_roundtrip_translated_*).'),
     "level_note": ("Trusted: Lean kernel, the three standard axioms, extractor, correspondence harness (g++, -fno-access-control). Modelled not "
                    "verified: that `mSegments[s] + o` is the address of slot o of block s (pointer arithmetic), the memory manager returning "
                    "distinct live blocks (allocation ids), element construction/destruction. Shifts by 64 or more (L0 >= 64, or "
@@ -49,6 +50,8 @@ PROP = {
         "Momo.Seg.C16_addBack_new_segment_is_next",
         "Momo.Seg.C16_capacity_is_total_slots",
         "Momo.Seg.C16_segment_count_for_capacity_is_least",
+        "Momo.Seg.C16_roundtrip_translated_sqrt",
+        "Momo.Seg.C16_roundtrip_translated_cnst",
     ],
     # one source, eight executables (they compile and run in parallel): an ASan+UBSan build that runs every container
     # configuration, and 7 parts; part k sweeps the k-th seventh of the index ranges and runs every 7th boundary /
